@@ -123,9 +123,16 @@ class VersionObjectFetcher(object):
         subquery = (
             sa.select(sa.func.count()).select_from(alias.__table__)
             .where(
-                getattr(alias, tx_column_name(obj))
-                <
-                getattr(obj, tx_column_name(obj))
+                sa.and_(
+                    getattr(alias, tx_column_name(obj))
+                    <
+                    getattr(obj, tx_column_name(obj)),
+                    *[
+                        getattr(alias, pk) == getattr(obj, pk)
+                        for pk in get_primary_keys(obj.__class__)
+                        if pk != tx_column_name(obj)
+                    ]
+                )
             )
             .correlate(alias.__table__)
             .label('position')
